@@ -496,6 +496,30 @@ fn gen(r: &mut Rng, tier: &Tier, out: &mut Vec<String>) {
         // only the request is ever reported: the server direction keeps growing
         out.push(format!("H 1000 1c:S:{}:- 1s:SA:5000:- 1c:PA:{}:{} 1s*{}*{}:PA:5001:{}", isn, isn + 1, hex(req), count / 4, size, hex(&tpl)));
     }
+    // ---------------- H: retransmission rounds of 2-3 distinct pending segments (A B A B ..., A B C A B C ...) ----------------
+    // the head never completes; after the first round no new byte arrives, so nothing more may be retained and the
+    // per-packet work must not grow (a retransmission check that only looks at the last stored segment fails here)
+    for i in 0..tier.scale(12, 60) {
+        let nseg = 2 + (i % 2) as usize;                       // 2 or 3 distinct pending segments
+        let size = *r.pick(&[300usize, 500, 900]);
+        let rounds = r.range(60, 90) as usize;
+        let client = i % 4 < 2;
+        let isn = r.below(1 << 31) as u32;
+        let mut s = format!("H {} 1c:S:{}:- 1s:SA:5000:-", *r.pick(&[1usize, 1000]), isn);
+        let base = if client { isn.wrapping_add(1) } else { 5001 };
+        let mut segs: Vec<Vec<u8>> = Vec::new();
+        for k in 0..nseg {
+            let mut d: Vec<u8> = if k == 0 { b"POST /upload HTTP/1.1\r\nX-Pad: ".to_vec() } else { Vec::new() };
+            while d.len() < size { d.push(b'a' + ((k + d.len()) % 26) as u8); }
+            segs.push(d);
+        }
+        for _ in 0..rounds {
+            for (k, d) in segs.iter().enumerate() {
+                s.push_str(&format!(" 1{}:PA:{}:{}", if client { 'c' } else { 's' }, base.wrapping_add((k * size) as u32), hex(d)));
+            }
+        }
+        out.push(s);
+    }
     // ---------------- T: TLS analyzer ----------------
     let ch = client_hello(); let shd = server_hello_done();
     for _ in 0..tier.scale(300, 3000) {
